@@ -30,6 +30,10 @@ func (rg *rootGenerator) generate() ([]*Node, error) {
 	for rg.scanner.Scan() {
 		currentNode, err := rg.nodeGenerator.generate(rg.scanner.Text(), rg.counter.next())
 		if err != nil {
+			if rerr := rg.scanner.Err(); rerr != nil {
+				// the reader failed: the last line may be truncated, report the reader's error
+				return nil, rerr
+			}
 			return nil, err
 		}
 		if currentNode == nil {
